@@ -4286,13 +4286,21 @@ fn parse_qualifiers<'a>(
                 ))
             }
         };
-        let (newarg, remainder, _) = get_arg(querystring)?;
+        let (newarg, remainder, _) = get_arg(remainder)?;
         if newarg == "RECURSIVE" {
-            let (newarg, remainder, _) = get_arg(querystring)?;
+            let (newarg, remainder, _) = get_arg(remainder)?;
             Ok((newarg, remainder, qualifier, AnnotationDepth::Max))
         } else {
             Ok((newarg, remainder, qualifier, AnnotationDepth::One))
         }
+    } else if arg == "RECURSIVE" {
+        let (newarg, remainder, _) = get_arg(querystring)?;
+        Ok((
+            newarg,
+            remainder,
+            SelectionQualifier::Normal,
+            AnnotationDepth::Max,
+        ))
     } else {
         Ok((
             arg,
@@ -4329,7 +4337,7 @@ fn parse_text_qualifiers<'a>(
                 ))
             }
         };
-        let (newarg, remainder, _) = get_arg(querystring)?;
+        let (newarg, remainder, _) = get_arg(remainder)?;
         Ok((newarg, remainder, qualifier, regex))
     } else {
         Ok((arg, querystring, TextMode::Exact, false))
